@@ -3,6 +3,7 @@ From Coq Require Import Extraction ExtrOcamlBasic.
 From GV Require Import Base.Util Base.NMap Circuit.Ssa Circuit.Reg Circuit.RegAlloc Circuit.Bristol
   Builder.Builder Builder.Build Gadgets.Gadgets
   Lang.Types Lang.Literal Exhaust.Pat Exhaust.Covers Lang.Ast Lang.Sem Lang.Wt.
+From GV Require Import Gadgets.Extend Sort.SortJob.
 From GV Require Import Front.Scan Front.Prettify Compile.Consts Panic.PanicRec.
 Extraction Language OCaml.
 Set Extraction AccessOpaque.
@@ -26,4 +27,5 @@ Separate Extraction
   Bristol.export Bristol.import Bristol.USIZE_MAX
   Scan.scan_text Prettify.prettify_meta
   Consts.repaired Consts.original Consts.check_defs Consts.compile_consts Consts.const_spec Consts.bits_unsigned Consts.bits_signed Consts.wt_defs Consts.sup_ok
-  PanicRec.pstate_new PanicRec.push_panic_if PanicRec.mux_panic PanicRec.prec_wires PanicRec.nset_keys PanicRec.parse_panic PanicRec.preason_num PanicRec.preason_from_num.
+  PanicRec.pstate_new PanicRec.push_panic_if PanicRec.mux_panic PanicRec.prec_wires PanicRec.nset_keys PanicRec.parse_panic PanicRec.preason_num PanicRec.preason_from_num
+  Extend.extend_to_bits SortJob.run_sops.
